@@ -80,12 +80,12 @@ def run(binary, steps, env=None, settle=3.0, final_stop=True):
             elif line.startswith("info depth "):
                 try:
                     events.append({"ev": "depth", "d": int(line.split()[2])})
-                except ValueError:
+                except (ValueError, IndexError):
                     events.append({"ev": "depth", "d": -1})
             elif line.startswith("info score cp "):
                 try:
                     events.append({"ev": "score", "cp": int(line.split()[3])})
-                except ValueError:
+                except (ValueError, IndexError):
                     pass
         return lines
 
